@@ -155,9 +155,9 @@ impl FsOcflStore {
         None
     }
 
-    /// Ensures that the root of a new object is a path inside the storage root that is not
-    /// nested within the root of another object
-    fn validate_new_object_root(&self, object_id: &str, object_root: &str) -> Result<()> {
+    /// Ensures that an object root is a path inside the storage root that is not nested within
+    /// the root of another object. `action` names what is being attempted, for error messages.
+    fn validate_object_root(&self, action: &str, object_id: &str, object_root: &str) -> Result<()> {
         let mut current = self.storage_root.clone();
         let mut components = Path::new(object_root).components().peekable();
 
@@ -167,15 +167,16 @@ impl FsOcflStore {
                 path::Component::CurDir => continue,
                 _ => {
                     return Err(RocflError::IllegalState(format!(
-                        "Cannot create object {} because its object root, {}, is not a path within the storage root",
-                        object_id, object_root
+                        "Cannot {} object {} because its object root, {}, is not a path within the storage root",
+                        action, object_id, object_root
                     )));
                 }
             }
 
             if components.peek().is_some() && current.is_dir() && is_object_root(&current)? {
                 return Err(RocflError::IllegalState(format!(
-                    "Cannot create object {} because its object root, {}, is nested within the object at {}",
+                    "Cannot {} object {} because its object root, {}, is nested within the object at {}",
+                    action,
                     object_id,
                     object_root,
                     current.to_string_lossy()
@@ -185,8 +186,8 @@ impl FsOcflStore {
 
         if current == self.storage_root {
             return Err(RocflError::IllegalState(format!(
-                "Cannot create object {} because its object root, {}, is not a path within the storage root",
-                object_id, object_root
+                "Cannot {} object {} because its object root, {}, is not a path within the storage root",
+                action, object_id, object_root
             )));
         }
 
@@ -380,7 +381,7 @@ impl OcflStore for FsOcflStore {
             }
         };
 
-        self.validate_new_object_root(&inventory.id, &root_path)?;
+        self.validate_object_root("create", &inventory.id, &root_path)?;
 
         let storage_path = self.storage_root.join(root_path);
 
@@ -497,20 +498,20 @@ impl OcflStore for FsOcflStore {
 
         let storage_path = self.storage_root.join(&object_root);
 
-        // A storage layout may map an ID to a path outside of the storage root, or to the root
-        // of an object with a different ID. Neither is the object that was asked for.
-        if !Path::new(&object_root)
-            .components()
-            .all(|c| matches!(c, path::Component::Normal(_) | path::Component::CurDir))
-        {
-            return Err(RocflError::IllegalState(format!(
-                "Cannot purge object {} because its object root, {}, is not a path within the storage root",
-                object_id, object_root
-            )));
-        }
-        if let Ok(inventory) = parse_inventory(&storage_path, &self.storage_root) {
-            if inventory.id != object_id {
+        // A storage layout may map an ID to a path outside of the storage root, to a path inside
+        // of another object, to a directory that is not an object, or to the root of an object
+        // with a different ID. None of these is the object that was asked for.
+        self.validate_object_root("purge", object_id, &object_root)?;
+
+        if storage_path.exists() {
+            if !storage_path.is_dir() || !is_object_root(&storage_path)? {
                 return Ok(());
+            }
+
+            if let Ok(inventory) = parse_inventory(&storage_path, &self.storage_root) {
+                if inventory.id != object_id {
+                    return Ok(());
+                }
             }
         }
 
